@@ -290,6 +290,29 @@ func init() {
 		add(fmt.Sprintf("desc[%d].duplicated", fi), func(a *a2spec) { a.Descs[fi].Dup = true })
 		add(fmt.Sprintf("desc[%d].name-empty", fi), func(a *a2spec) { a.Descs[fi].Name = []byte{0, 0, 0, 0} })
 		add(fmt.Sprintf("desc[%d].name-none", fi), func(a *a2spec) { a.Descs[fi].Name = nil })
+		// the same, and other degenerate names, with the file id recomputed over the new name (fully consistent packets)
+		for _, nm := range []string{"", "\x00\x00\x00\x00", "a", "b\x00\x00\x00", "ab", ".", "/", ":", "a:", "C:x", "a\x00b"} {
+			nm := nm
+			add(fmt.Sprintf("desc[%d].name=%q(id recomputed)", fi, nm), func(a *a2spec) {
+				raw := []byte(nm)
+				for len(raw)%4 != 0 {
+					raw = append(raw, 0)
+				}
+				a.Descs[fi].Name = raw
+				eff := nm
+				if i := strings.IndexByte(eff, 0); i >= 0 {
+					eff = eff[:i]
+				}
+				a.Descs[fi].ID = rpar2.FileID(a.Descs[fi].MD516k, a.Descs[fi].Len, eff)
+				for k := range a.IDs {
+					if a.IDs[k] == a.IFSCs[fi].ID {
+						a.IDs[k] = a.Descs[fi].ID
+					}
+				}
+				a.IFSCs[fi].ID = a.Descs[fi].ID
+				sort.Slice(a.IDs, func(i, j int) bool { return rpar2.IDLess(a.IDs[i], a.IDs[j]) })
+			})
+		}
 		some := func(a *a2spec) rpar2.Checksum {
 			if len(a.IFSCs[fi].Sums) > 0 {
 				return a.IFSCs[fi].Sums[0]
@@ -694,13 +717,19 @@ func c19RunP2(c *c19Case, r *core.Rec) {
 	}
 	// declared facts, as the index (the authority gopar reads) declares them
 	declSlice := idxSpec.Slice
-	declMD5 := map[string][16]byte{}
-	declLen := map[string]uint64{}
+	type declT struct {
+		md5 [16]byte
+		n   uint64
+	}
+	decl := map[string][]declT{} // several descriptions may declare the same name
 	for _, d := range idxSpec.Descs {
 		if !d.Drop {
-			nm := strings.TrimRight(string(d.Name), "\x00")
-			declMD5["/d/"+nm] = d.MD5
-			declLen["/d/"+nm] = d.Len
+			nm := string(d.Name)
+			if i := strings.IndexByte(nm, 0); i >= 0 {
+				nm = nm[:i] // the name ends at the first NUL
+			}
+			k := path.Clean("/d/" + nm)
+			decl[k] = append(decl[k], declT{d.MD5, d.Len})
 		}
 	}
 	// usable-data bound: declared checksum entries whose MD5 matches a window of a present file
@@ -782,12 +811,18 @@ func c19RunP2(c *c19Case, r *core.Rec) {
 		if op == "repair" {
 			for _, w := range f2.Writes() {
 				cp := path.Clean(w.Path)
-				want, ok := declMD5[cp]
+				wants, ok := decl[cp]
 				if !ok {
 					r.Violatef("repair-wrote-undeclared-path", "%s wrote %q", what, w.Path)
 					continue
 				}
-				if md5.Sum(w.Data) != want || uint64(len(w.Data)) != declLen[cp] {
+				match := false
+				for _, wnt := range wants {
+					if md5.Sum(w.Data) == wnt.md5 && uint64(len(w.Data)) == wnt.n {
+						match = true
+					}
+				}
+				if !match {
 					r.Violatef("repair-wrote-data-failing-archive-hash", "%s wrote %d bytes to %q that do not match the archive's own MD5/length for that file", what, len(w.Data), w.Path)
 				}
 			}
